@@ -76,6 +76,7 @@ type Result struct {
 	Infra      string           `json:"infra,omitempty"` // harness trouble (never a violation)
 	Evals      int64            `json:"evals,omitempty"` // evaluations inside this run (default 1)
 	Cases      []string         `json:"cases,omitempty"` // distinct non-trivial case ids inside this run
+	Replan     *Plan            `json:"replan,omitempty"` // a smaller explicit plan that reproduces the violation
 }
 
 // Log is the event log of a run. Its hash is the run's trace hash.
